@@ -166,7 +166,10 @@ pub fn run_c10(ctx: &mut Ctx) {
         let start = *r.pick(model::START_VALUES);
         let len = 30 + r.below(271);
         let ops: Vec<Op> = (0..len).map(|_| model::random_op(&mut r)).collect();
-        let mut l: Locale = start.parse().unwrap();
+        let Ok(mut l) = start.parse::<Locale>() else {
+            ctx.count("setup: start value rejected by the library (history skipped)");
+            continue;
+        };
         let mut m = obs_loc(&l);
         let mut prev = 0u64;
         ctx.count("random_histories");
@@ -246,7 +249,10 @@ pub fn gen_value(r: &mut Rng) -> (Locale, &'static str, Value) {
         }
         2 | 3 => {
             let start = *r.pick(model::START_VALUES);
-            let mut l: Locale = start.parse().unwrap();
+            let (start, mut l) = match start.parse::<Locale>() {
+                Ok(l) => (start, l),
+                Err(_) => ("und", Locale::default()),
+            };
             let n = 1 + r.below(25);
             let ops: Vec<Op> = (0..n).map(|_| model::random_op(r)).collect();
             for op in &ops {
@@ -278,7 +284,10 @@ fn run_values(ctx: &mut Ctx, tag: u64, n_hist: u64, n_other: u64, check: fn(&str
         let start = *r.pick(model::START_VALUES);
         let len = 10 + r.below(120);
         let ops: Vec<Op> = (0..len).map(|_| model::random_op(&mut r)).collect();
-        let mut l: Locale = start.parse().unwrap();
+        let Ok(mut l) = start.parse::<Locale>() else {
+            ctx.count("setup: start value rejected by the library (history skipped)");
+            continue;
+        };
         ctx.count("histories");
         for (i, op) in ops.iter().enumerate() {
             mon::begin_case(op.kind().as_bytes());
@@ -295,7 +304,7 @@ fn run_values(ctx: &mut Ctx, tag: u64, n_hist: u64, n_other: u64, check: fn(&str
                 if ctx.may_minimise(&f.clause) {
                     let clause = f.clause.clone();
                     let bad = |c: &[Op]| -> bool {
-                        let mut l: Locale = start.parse().unwrap();
+                        let Ok(mut l) = start.parse::<Locale>() else { return false };
                         for op in c {
                             if guard(|| model::apply_lib(&mut l, op)).is_err() {
                                 return false;
